@@ -17,6 +17,25 @@ def last_mem_byte(F, value):
     return bs[F.ptr_bytes - 1]
 
 
+def _follow_forward(F, b, depth=3):
+    """`fn len(&self) -> usize { imp::len(self) }`: the private helper the whole body forwards to"""
+    while b is not None and depth > 0:
+        depth -= 1
+        ds = b.defs.get(0, [])
+        if len(ds) != 1 or ds[0][1] != "term":
+            break
+        t = b.term(ds[0][0])
+        k = t.get("local_key")
+        if not k or k not in F.bodies or k in anchors(F) or F.bodies[k].j["kind"] == "closure":
+            break
+        if [describe(b, b.origin_operand(a)) for a in t["args"]] != ["p%d" % (i + 1) for i in range(b.arg_count)]:
+            break
+        if sum(1 for _ in b.calls()) != 1:
+            break
+        b = F.bodies[k]
+    return b
+
+
 def rule_T1(ctx, rule="T1-tags"):
     F = ctx.F
     hm = F.enum_discr(LB, "HeapMarker")
@@ -87,6 +106,20 @@ def rule_T1(ctx, rule="T1-tags"):
                     if got != (mask | ln_):
                         bad.append((ln_, got))
                 ctx.ob(rule, fn, "tag-value", not bad, how="tag(len) = 0xC0 | len for every len < %d (evaluated): %s" % (M, d[:80]), detail="inline tag for len %s is %s, readers expect %#x (%d lengths differ): %s" % ((bad[0][0], bad[0][1], mask | bad[0][0], len(bad), d[:160]) if bad else ("-", "-", 0, 0, d[:160])))
+    # ... and nobody else stores into the inline bytes by index: the three writers above are the
+    # audited ones (a fourth - "lower the tag in place" - is judged by nobody: on a full buffer the
+    # last byte is text, not a tag)
+    from guards import anchor_callers
+    audited = ("repr::inline_buffer::InlineBuffer::new", "repr::inline_buffer::InlineBuffer::set_len", "repr::inline_buffer::InlineBuffer::empty")
+    for path, b in F.bodies.items():
+        if path in audited:
+            continue
+        for bb, blk in enumerate(b.blocks):
+            for s in blk["stmts"]:
+                if s["k"] == "assign" and s["lhs"]["p"] and isinstance(s["lhs"]["p"][-1], dict) and ("idx" in s["lhs"]["p"][-1] or "cidx" in s["lhs"]["p"][-1]) and "InlineBuffer" in (b.local_ty(s["lhs"]["l"]) or ""):
+                    ok = path not in anchors(F) and anchor_callers(F, path) and anchor_callers(F, path) <= set(audited)
+                    ctx.ob(rule, path, "inline-bytes-writer", bool(ok), line=s.get("line"), how="helper of an audited tag writer",
+                           detail="%s stores into the inline buffer's bytes by index: the tag byte has three audited writers (InlineBuffer::new / empty / set_len, each evaluated for every length); a store made anywhere else is not known to leave a valid tag or text byte" % path)
     # readers: is_heap_buffer / is_static_buffer summaries, by kind
     S = Solver(F)
     for fn, kind in (("repr::Repr::is_heap_buffer", "H"), ("repr::Repr::is_static_buffer", "S")):
@@ -111,7 +144,7 @@ def rule_T1(ctx, rule="T1-tags"):
     # len: the inline arm decodes the tag byte correctly for EVERY byte an inline string can end in
     # (0xC0|len for len < MAX_INLINE_SIZE, and any UTF-8 final byte < 0xC0 of a full buffer):
     # the decoding expression is evaluated for all of them
-    ln = F.bodies.get("repr::Repr::len")
+    ln = _follow_forward(F, F.bodies.get("repr::Repr::len"))
     branchless = False
     if ln:
         cands = []
@@ -134,10 +167,18 @@ def rule_T1(ctx, rule="T1-tags"):
             if isinstance(vh, _U) and isinstance(vs_, _U) and vh == vs_ and "last_byte" not in vh:
                 branchless = True
                 ctx.ob(rule, ln.path, "inline-vs-heap-test", True, how="branchless select: the markers %#x / %#x yield the stored length word %s" % (hm, sm, vh[:60]))
+    if ln and F.ptr_bits == 32:
+        # three bytes of length word: longer heap texts keep their length in the header, behind a
+        # sentinel only HeapBuffer::len knows. The heap arm of Repr::len has to go through it.
+        t0 = T(kind="H", uniq=False, ref="own", acq=False, inc=0, asg=False, dirty=False, ret=None, facts=frozenset())
+        res, ev = S.walk(ln, ("param", 1), t0)
+        via = [e for e in ev if e[2] == "repr::heap_buffer::HeapBuffer::len"]
+        ctx.ob(rule, ln.path, "heap-len-via-HeapBuffer::len", bool(via), how="heap arm calls HeapBuffer::len (length word or header, by the sentinel)",
+               detail="on a 32-bit target Repr::len of a heap buffer does not go through HeapBuffer::len: the 24-bit length word holds a sentinel for texts of 2^24-1 bytes and more, whose length is in the header")
     if ln and F.ptr_bits == 64 and not branchless:
         facts = [(d, lo, hi) for d, lo, hi, _, _ in cmp_facts(ln) if d == "repr::Repr::last_byte(p1)"]
         ctx.ob(rule, ln.path, "inline-vs-heap-test", any((lo is None and hi == hm - 1) or (lo == hm and hi is None) for _, lo, hi in facts), how="inline iff last_byte < HeapMarker (as an interval: %s)" % facts[:2], detail="Repr::len selects the inline length on %s" % facts)
-    ab = F.bodies.get("repr::Repr::as_bytes")
+    ab = _follow_forward(F, F.bodies.get("repr::Repr::as_bytes"))
     if ab:
         facts = [(d, lo, hi) for d, lo, hi, _, _ in cmp_facts(ab) if d == "repr::Repr::last_byte(p1)"]
         ctx.ob(rule, ab.path, "pointer-select", any((lo == hm and hi is None) or (lo is None and hi == hm - 1) for _, lo, hi in facts), how="data pointer = self.0 iff last_byte >= HeapMarker, else the handle itself", detail="as_bytes selects the pointer on %s" % facts)
@@ -184,7 +225,7 @@ def _ceval(body, e, byte, F, depth=0, env=None, binds=None):
     W = (1 << F.ptr_bits) - 1
     k = e[0]
     E = lambda x: _ceval(body, x, byte, F, depth + 1, env, binds)
-    if binds and k in ("param", "call"):
+    if binds and k in ("param", "call", "field"):
         dd = describe(body, e)
         if dd in binds:
             return binds[dd]
@@ -205,6 +246,13 @@ def _ceval(body, e, byte, F, depth=0, env=None, binds=None):
         return _U(describe(body, e))
     if k == "field" and e[1][0] == "bin" and e[1][1].endswith("WithOverflow") and e[2] == 0:
         return E(("bin", e[1][1].replace("WithOverflow", ""), e[1][2], e[1][3]))
+    if k == "agg" and len(e[3]) == 1 and e[1] in F.adts:
+        return E(e[3][0])          # a newtype around the word
+    if k == "field" and e[2] == 0:
+        bt = strip_refs(e[1])
+        v = E(e[1])
+        if isinstance(v, int) and not isinstance(v, bool):
+            return v               # ... and its only field
     if k == "un":
         v = E(e[2])
         if v is None or isinstance(v, _U):
@@ -286,6 +334,24 @@ def _ceval(body, e, byte, F, depth=0, env=None, binds=None):
             if not bits:
                 return None
             m = (1 << bits) - 1
+            nb = bits // 8
+            big = F.endian == "big"
+            swap = lambda v: int.from_bytes(v.to_bytes(nb, "little"), "big")
+            if len(vs) == 1 and isinstance(vs[0], int):
+                if leaf == "to_le":
+                    return swap(vs[0]) if big else vs[0]
+                if leaf == "to_be":
+                    return vs[0] if big else swap(vs[0])
+                if leaf in ("from_le", "from_be"):
+                    return (swap(vs[0]) if big else vs[0]) if leaf == "from_le" else (vs[0] if big else swap(vs[0]))
+                if leaf == "swap_bytes":
+                    return swap(vs[0])
+                if leaf in ("to_ne_bytes", "to_le_bytes", "to_be_bytes"):
+                    order = {"to_ne_bytes": "big" if big else "little", "to_le_bytes": "little", "to_be_bytes": "big"}[leaf]
+                    return tuple(vs[0].to_bytes(nb, order))
+            if len(vs) == 1 and isinstance(vs[0], tuple) and leaf in ("from_ne_bytes", "from_le_bytes", "from_be_bytes"):
+                order = {"from_ne_bytes": "big" if big else "little", "from_le_bytes": "little", "from_be_bytes": "big"}[leaf]
+                return int.from_bytes(bytes(vs[0]), order)
             if leaf == "wrapping_sub" and len(vs) == 2:
                 return (vs[0] - vs[1]) & m
             if leaf == "wrapping_add" and len(vs) == 2:
@@ -335,6 +401,74 @@ def _is_bool(body, e):
     if e[0] == "const" and e[1] == "bool":
         return True
     return False
+
+
+def rule_len_words(ctx, rule="T1-tags"):
+    """The length word of a heap / static handle is written by TextLen::new, StaticBuffer::new and
+    StaticBuffer::set_len and read back by TextLen::as_usize / StaticBuffer::len.  For the byte order
+    of THIS target: reader(writer(len)) == len, and the last memory byte of the written word is the
+    marker.  Writers and readers here are compositions of byte-order conversions and bitwise
+    operations with constants, i.e. byte-wise affine maps: agreement on the words evaluated
+    (zero, one, all-distinct bytes, the maximum) determines them for every length."""
+    F = ctx.F
+    nb = F.ptr_bytes
+    hm, sm = F.enum_discr(LB, "HeapMarker"), F.enum_discr(LB, "StaticMarker")
+    maxlen = F.const_scalar("repr::heap_buffer::internal::MAX_LEN")
+    smax = F.const_scalar("repr::static_buffer::StaticBuffer::MAX_LENGTH")
+    pairs = [("repr::heap_buffer::internal::TextLen::new", "p1", "repr::heap_buffer::internal::TextLen::as_usize", "p1.0", hm, maxlen, "repr::heap_buffer::internal::TextLen"),
+             ("repr::static_buffer::StaticBuffer::new", "core::str::<impl str>::len(p1)", "repr::static_buffer::StaticBuffer::len", None, sm, smax, "repr::static_buffer::StaticBuffer"),
+             ("repr::static_buffer::StaticBuffer::set_len", "p2", "repr::static_buffer::StaticBuffer::len", None, sm, smax, "repr::static_buffer::StaticBuffer")]
+    # the word itself, or a private newtype around it
+    words = {"usize"} | {p for p, a in F.adts.items() if len(a["variants"]) == 1 and len(a["variants"][0]["fields"]) == 1 and a["variants"][0]["fields"][0]["ty"].strip() == "usize"}
+    for wfn, wvar, rfn, rvar, marker, mx, adt in pairs:
+        wb, rb = F.bodies.get(wfn), F.bodies.get(rfn)
+        ctx.need(rule, wfn, "anchor", wb is not None and rb is not None, "%s / %s not found" % (wfn, rfn))
+        if not wb or not rb or mx is None or marker is None:
+            continue
+        # the written word: the usize field of the aggregate built / the usize stored through self
+        wexprs = []
+        for blk in wb.blocks:
+            for s_ in blk["stmts"]:
+                if s_["k"] != "assign":
+                    continue
+                rv = s_["rv"]
+                if rv["k"] == "aggregate" and rv.get("adt") == adt:
+                    for f in rv["fields"]:
+                        e = wb.origin_operand(f)
+                        if wvar in describe(wb, e):
+                            wexprs.append(e)
+                elif s_["lhs"]["p"] and s_["lhs"]["l"] == 1 and s_.get("lhs_ty") in words and wfn.endswith("set_len"):
+                    wexprs.append(wb.origin_rvalue(rv))
+        ctx.need(rule, wfn, "length-word", len(wexprs) == 1, "%s builds %d length words from its argument" % (wfn, len(wexprs)), how="one length word")
+        if len(wexprs) != 1:
+            continue
+        rdefs = rb.defs.get(0, [])
+        if len(rdefs) != 1:
+            continue
+        rexpr = ("call", rdefs[0][0]) if rdefs[0][1] == "term" else rb.origin_rvalue(rdefs[0][2])
+        if rvar is None:
+            # which field of self the reader looks at: the usize field
+            adt_ = F.adts.get(adt)
+            idx = [i for i, f in enumerate(adt_["variants"][0]["fields"]) if f["ty"].strip() in words] if adt_ else []
+            rvar = "p1.%d" % idx[0] if idx else "p1.1"
+        distinct = int.from_bytes(bytes(range(1, nb)) + b"\0", "little") & mx
+        bad = []
+        for ln_ in sorted({0, 1, 0xFF, 0x100, distinct, mx - 1, mx}):
+            if ln_ > mx or ln_ < 0:
+                continue
+            w = _ceval(wb, wexprs[0], None, F, 0, None, {wvar: ln_})
+            if not isinstance(w, int) or isinstance(w, bool):
+                bad.append((ln_, "writer not evaluated (%r)" % (w,)))
+                continue
+            mem = w.to_bytes(nb, "big" if F.endian == "big" else "little")
+            if mem[-1] != marker:
+                bad.append((ln_, "last memory byte %#x, not the marker %#x" % (mem[-1], marker)))
+                continue
+            r = _ceval(rb, rexpr, None, F, 0, None, {rvar: w})
+            if r != ln_:
+                bad.append((ln_, "read back as %r" % (r,)))
+        ctx.ob(rule, wfn, "length-word-round-trip", not bad, how="%s then %s gives the length back and puts the marker in the last memory byte (%s-endian words evaluated)" % (wfn.rsplit("::", 1)[-1], rfn.rsplit("::", 1)[-1], F.endian),
+               detail="length %s written by %s: %s (%d of the evaluated words differ, %s-endian target)" % ((bad[0][0], wfn, bad[0][1], len(bad), F.endian) if bad else (0, wfn, "", 0, F.endian)))
 
 
 def rule_T3(ctx, rule="T3-publish"):
